@@ -49,6 +49,8 @@ def run(chk, repo):
     chk.doc("R21.6", "write datagrams are registered writers")
     chk.doc("R21.7", "stamp parity in the dispatcher")
     typestate(chk, repo)
+    template_untouched(chk, repo)
+    slot_lookup(chk, repo)
     activation(chk, repo)
     # which datagrams are writers, where their command bytes and working
     # counters are and what count is expected: decided on allocated groups
@@ -60,6 +62,85 @@ def run(chk, repo):
     writers(chk, repo)
     from . import c11
     c11.writers_registered(chk, repo, "R21.6")
+
+
+def template_untouched(chk, repo):
+    """the sterile template (asm_packet of a fast group) is sent again and
+    again: no other attribute of the group may be bound to the same object
+    and then be written in place (a received frame copied into it, say)"""
+    chk.doc("R21.1", "the sterile template is never written")
+    fg = repo.cls(C + "FastSyncGroup")
+    classes = [c for c in repo.mro(fg) if isinstance(c, ClassInfo)]
+    aliases, muts = {}, {}
+    for c in classes:
+        for name, f in c.methods.items():
+            if not isinstance(f, FUNC):
+                continue
+            for st in walk_no_nested(f):
+                if isinstance(st, ast.Assign) and match(
+                        "self.asm_packet", st.value) is not None:
+                    for t in st.targets:
+                        if is_self_attr(t) and t.attr != "asm_packet":
+                            aliases.setdefault(t.attr, []).append(
+                                (c, name, st))
+                tgts = st.targets if isinstance(st, ast.Assign) else (
+                    [st.target] if isinstance(st, ast.AugAssign) else [])
+                for t in tgts:
+                    if isinstance(t, ast.Subscript) and is_self_attr(
+                            t.value):
+                        muts.setdefault(t.value.attr, []).append(
+                            (c, name, st))
+    direct = muts.get("asm_packet", [])
+    bad = [(a, m) for a, sts in aliases.items() for m in muts.get(a, [])]
+    chk.ob("R21.1", fg.qualname, "nothing writes into the sterile template, "
+           "directly or through another name for it", not direct and not bad,
+           (direct[0][2] if direct else bad[0][1][2] if bad else fg.node),
+           (f"self.{bad[0][0]} is bound to asm_packet in "
+            f"{aliases[bad[0][0]][0][0].qualname}."
+            f"{aliases[bad[0][0]][0][1]} and written in place in "
+            f"{bad[0][1][0].qualname}.{bad[0][1][1]}: an active frame "
+            f"copied there goes out again with its write datagrams enabled "
+            f"and stale data") if bad else
+           ("asm_packet is written in place" if direct else
+            "asm_packet is only ever replaced as a whole"))
+
+
+def slot_lookup(chk, repo):
+    """the program-table slot a fast sync group is put into was found
+    free in the table itself (lookup_elem answering ENOENT): the table is
+    pinned and shared with other processes, a local list of the own groups
+    says nothing about their slots"""
+    chk.doc("R21.5", "a slot is taken only when the shared table says it "
+                     "is free")
+    sym = C + "FastEtherCat.register_sync_group"
+    f = repo.func(sym)
+    chk.analysed(sym)
+    cfg = CFG(f, raises="call")
+    ups = [n for n in cfg.nodes if n.expr is not None and find(
+        "update_elem(self.programs, $k, $v)", n.expr)]
+    lks = [n for n in cfg.nodes if n.expr is not None and find(
+        "lookup_elem(self.programs, $k, $*a)", n.expr)]
+    need(len(ups) == 1, f"{sym}: the table update was not found")
+    ok = False
+    why = "no lookup_elem(self.programs, key) before the slot is written"
+    if lks:
+        ku = unparse(find("update_elem(self.programs, $k, $v)",
+                          ups[0].expr)[0][1]["k"])
+        kl = {unparse(find("lookup_elem(self.programs, $k, $*a)",
+                           n.expr)[0][1]["k"]) for n in lks}
+        # the update is reached only through the handler of a failed
+        # lookup (the normal return of lookup_elem means: slot taken)
+        reach = cfg.reach_edges(cfg.entry, lambda a, b, lab: not (
+            a in lks and lab == "exc"))
+        ok = kl == {ku} and ups[0] not in reach
+        why = ("the update is reachable without a failed lookup of "
+               f"`{ku}`" if not ok else
+               f"update of `{ku}` only after lookup_elem raised for it")
+    chk.ob("R21.5", sym, "the slot written was looked up in the shared "
+           "program table and found empty", ok, ups[0].stmt, why + (
+               "" if ok else ": a slot another process's group occupies is "
+               "overwritten, and its frames are processed by this group's "
+               "program"))
 
 
 def typestate(chk, repo):
